@@ -223,6 +223,7 @@ func TestVerif_C08_ApiReadsVsLogins(t *testing.T) {
 				}
 				var r *rawResp
 				var err error
+				st0, _ := os.Stat(fn)
 				if rapid.Bool().Draw(t, "serverHashes") {
 					r, err = rig.raw("POST", path, map[string]string{"Authorization": auth, "Content-Type": "text/plain"}, []byte(npw))
 				} else {
@@ -234,6 +235,12 @@ func TestVerif_C08_ApiReadsVsLogins(t *testing.T) {
 				plan = append(plan, fmt.Sprintf("password of %s := %s -> %d", who, npw, r.Status))
 				if r.Status < 200 || r.Status >= 300 {
 					t.Fatalf("C17: the administrator's password change for %s was refused: %d %s", who, r.Status, trunc(r.Body))
+				}
+				if st1, _ := os.Stat(fn); st0 != nil && st1 != nil && st0.Size() == st1.Size() && st0.ModTime().Equal(st1.ModTime()) {
+					// the file system gave the two versions one modification time (its clock can stall on a busy virtual
+					// machine): the server cannot tell them apart, which the statements exclude.  No verdict from this case.
+					c08aRec.Class("discarded_file_system_gave_two_versions_one_modification_time")
+					return
 				}
 				wrote = true
 				apiSeen++
